@@ -440,7 +440,7 @@ theorem deposit_inv {so : ScriptOf} {a : Account} {amount rate : Int} {best eh :
     {maxValue : Option Int} {fd : Option Funded} {f : Faults}
     (h : (deposit so a amount rate best eh nv maxValue fd f).refusal = none) :
     a.state = StateOpen ∧ a.version ≤ nv ∧ ∃ maxV ne tx, maxValue = some maxV ∧ a.value + amount ≤ maxV ∧
-      optExpiry eh best = .ok ne ∧
+      (MinAccountValue : Int) ≤ a.value + amount ∧ optExpiry eh best = .ok ne ∧
       inputsForDeposit so a (createNewAccountOutput so a (a.value + amount) ne nv).1 amount
         (determineWitnessType a best) rate fd = .ok tx ∧
       deposit so a amount rate best eh nv maxValue fd f
@@ -459,14 +459,19 @@ theorem deposit_inv {so : ScriptOf} {a : Account} {amount rate : Int} {best eh :
         simp only [] at h
         split at h
         · simp [refuse] at h
-        · rename_i hmax
+        · rename_i hmin
           split at h
           · simp [refuse] at h
-          · rename_i ne hne
+          · rename_i hmax
             split at h
             · simp [refuse] at h
-            · rename_i tx htx
-              refine ⟨by simpa using hs, by omega, maxV, ne, tx, rfl, by omega, hne, htx, ?_⟩
-              simp [hs, hv, hmax, hne, htx]
+            · rename_i ne hne
+              split at h
+              · simp [refuse] at h
+              · rename_i tx htx
+                have hdm : depositChecksMin = true := by decide
+                refine ⟨by simpa using hs, by omega, maxV, ne, tx, rfl, by omega, ?_, hne, htx, ?_⟩
+                · simp only [hdm, true_and] at hmin; omega
+                · simp [hs, hv, hmin, hmax, hne, htx]
 
 end Pool.C07
